@@ -258,6 +258,25 @@ let emit_goal id lhs rhs =
       Printf.fprintf oc "(* case %s *)\nGoal %s = %s.\nProof. vm_compute. reflexivity. Qed.\n" id lhs rhs;
       flush oc
 let current_id = ref ""
+let pp_wlr (w : wl_recipe) = Printf.sprintf "(mkWLR %s %s %s %s)" (pp_opt pp_wl w.wrList) (pp_z w.wrLength) (pp_sep w.wrSep) (pp_cap w.wrCap)
+let pp_obj = function
+  | OChar c -> Printf.sprintf "(OChar (mkCO %s None))" (pp_recipe c.coPub)
+  | OWL w -> "(OWL " ^ pp_wlr w ^ ")"
+let pp_op = function
+  | SetChar (h, r) -> Printf.sprintf "SetChar %s %s" (pp_nat h) (pp_recipe r)
+  | SetWL (h, w) -> Printf.sprintf "SetWL %s %s" (pp_nat h) (pp_wlr w)
+  | Generate (h, src) -> Printf.sprintf "Generate %s %s" (pp_nat h) (pp_source src)
+  | Entropy (h, src) -> Printf.sprintf "Entropy %s %s" (pp_nat h) (pp_source src)
+  | Alphabet h -> "Alphabet " ^ pp_nat h
+  | SuccessProb h -> "SuccessProb " ^ pp_nat h
+let pp_result = function
+  | RNone -> "RNone"
+  | RChar (o, n, e) -> Printf.sprintf "RChar %s %s %s" (pp_outcome (pp_list pp_bytes) o) (pp_n n) (pp_entropy e)
+  | RWord (o, n) -> Printf.sprintf "RWord %s %s" (pp_outcome (pp_pair (pp_list pp_token) pp_wle) o) (pp_n n)
+  | REntropy e -> "REntropy " ^ pp_entropy e
+  | RWLEntropy (o, n) -> Printf.sprintf "RWLEntropy %s %s" (pp_outcome pp_wle o) (pp_n n)
+  | RAlphabet a -> "RAlphabet " ^ pp_bytes a
+  | RSuccess (num, den) -> Printf.sprintf "RSuccess %s %s" (pp_z num) (pp_z den)
 let pp_rt = function
   | RtNone -> "RtNone" | RtOk -> "RtOk" | RtErr e -> "(RtErr " ^ pp_err e ^ ")" | RtPanic -> "RtPanic"
   | RtLossy ts -> "(RtLossy " ^ pp_list pp_token ts ^ ")"
@@ -450,6 +469,8 @@ let run_case fam t =
          | k -> failwith ("bad op " ^ k))
       done;
       let results = run_history tbl (Array.to_list objs) (List.rev !ops) in
+      emit_goal !current_id (Printf.sprintf "run_history %s %s %s" (pp_tbl tbl) (pp_list pp_obj (Array.to_list objs)) (pp_list pp_op (List.rev !ops)))
+        (pp_list pp_result results);
       let show = function
         | RNone -> "-"
         | RChar (o, n, e) ->
